@@ -68,6 +68,19 @@ func anchorValue(a string, d int, p *big.Int, rng *rand.Rand) *big.Int {
 		v = new(big.Int).Sub(p, lo)
 	case "pm1":
 		v = new(big.Int).Sub(p, big.NewInt(1))
+	case "p":
+		v = new(big.Int).Set(p)
+	case "p_lo":
+		v = new(big.Int).Add(p, lo)
+	case "p_mid":
+		v = new(big.Int).Add(p, new(big.Int).Rsh(p, 1))
+	case "twop":
+		v = new(big.Int).Lsh(p, 1)
+	case "max2048":
+		v = new(big.Int).Lsh(big.NewInt(1), 2048)
+		v.Sub(v, big.NewInt(3))
+	case "over2048":
+		v = new(big.Int).Lsh(big.NewInt(1), 2056)
 	default:
 		panic("bad anchor")
 	}
